@@ -291,7 +291,16 @@ def i_floordiv(a, b):
     return a / b  # z3 int division (floor for positive divisor)
 
 
-handles("add", "__add__", "__radd__")(_binop(T.add))
+def s_add(x, y):
+    r = T.add(x, y)
+    for c, o in ((x, y), (y, x)):
+        if is_num(c) and not is_num(o) and 0 < abs(num(c)) <= Fraction(1, 10 ** 5):
+            # a tiny literal added to a symbolic value: comparisons against the sum are rounding questions (DESIGN 4-C17)
+            C().notes.setdefault("bumps", {})[r.get_id()] = (r, o, num(c))
+    return r
+
+
+handles("add", "__add__", "__radd__")(_binop(s_add))
 handles("sub", "__sub__")(_binop(T.sub))
 handles("mul", "__mul__", "__rmul__", "multiply")(_binop(T.mul))
 handles("div", "true_divide", "__truediv__", "divide")(_binop(s_div))
